@@ -305,8 +305,40 @@ def installed(vfs: VFS):
 
     real_isfile, real_getsize = os.path.isfile, os.path.getsize
 
+    import shutil
+
+    real_copyfile, real_copy, real_copy2, real_move = shutil.copyfile, shutil.copy, shutil.copy2, shutil.move
+
+    def copyfile(src, dst, **kw):
+        if not (in_vfs(src) or in_vfs(dst)):
+            return real_copyfile(src, dst, **kw)
+        src, dst = os.fspath(src), os.fspath(dst)
+        if src not in vfs.files:
+            raise FileNotFoundError(2, "No such file or directory", src)
+        data = bytes(vfs.files[src])
+        if dst not in vfs.files:
+            vfs.files[dst] = Inode()
+        ino = vfs._inode(dst)
+        vfs.log.append(("open", dst, "w", ino.ino))
+        del ino[:]
+        if data:
+            vfs.log.append(("write", dst, 0, data, ino.ino))
+            ino.extend(data)
+        vfs.log.append(("close", dst, ino.ino))
+        return dst
+
+    def move(src, dst, **kw):
+        if not (in_vfs(src) or in_vfs(dst)):
+            return real_move(src, dst, **kw)
+        vfs.replace(src, dst)
+        return dst
+
     patches = [
         patch("aiofiles.threadpool.sync_open", vfs.sync_open),
+        patch("shutil.copyfile", copyfile),
+        patch("shutil.copy", copyfile),
+        patch("shutil.copy2", copyfile),
+        patch("shutil.move", move),
         patch("os.path.isfile", isfile),
         patch("os.open", os_open),
         patch("os.path.getsize", getsize),
